@@ -102,6 +102,7 @@ class Ctx:
             # "unknown"); still unknown -> inconclusive, never a pass
             s2 = z3.Solver()
             s2.set("timeout", 3 * QUERY_TIMEOUT_MS)
+            s2.set("random_seed", 7)
             s2.add(*self.solver.assertions())
             r = s2.check(*extra)
             self.stats.queries += 1
@@ -130,6 +131,10 @@ class Ctx:
     def assume(self, c):
         self.solver.add(c)
         self.pc.append(c)
+
+    def prefix_feasible(self, cond):
+        """while replaying a decision prefix: the same feasibility pre-check as on first execution"""
+        return self.sat(cond)
 
     def fresh_int(self, base):
         self.nfresh += 1
@@ -700,6 +705,9 @@ def explore(fn, bound=4, maxpaths=20000, stats=None, on_path=None, deadline_s=No
             raise Inconclusive(f"time budget exceeded ({deadline_s}s) after {st.paths} paths")
     if stats is not None:
         stats.add(st)
+    if st.paths == 0 and st.cuts > 0 and not stopped:
+        # nothing but cut paths: the harness never reached an assertion for this item - vacuous, never a pass
+        raise Inconclusive(f"every path was cut ({dict(st.cut_reasons)}): nothing was explored")
     return results, st
 
 
